@@ -21,9 +21,9 @@ class TapeMismatch(BaseException):
 class TapeExhausted(TapeMismatch):
     """script mode ran out of scripted draws: the enumerator branches on (kind, range) here"""
 
-    def __init__(self, kind, rng, api):
+    def __init__(self, kind, rng, api, weights=None):
         super().__init__("script exhausted: code asked for %s(%s) via %s" % (kind, rng, api))
-        self.kind, self.range, self.api = kind, rng, api
+        self.kind, self.range, self.api, self.weights = kind, rng, api, weights
 
 
 class Boom(Exception):
@@ -87,9 +87,9 @@ class Tape:
         if self.sink:
             self.sink(ev)
 
-    def _next(self, kind, rng, api):
+    def _next(self, kind, rng, api, weights=None):
         if not self.script:
-            raise TapeExhausted(kind, rng, api)
+            raise TapeExhausted(kind, rng, api, weights)
         k, r, v = self.script.pop(0)
         if k != kind or (r is not None and rng is not None and r != rng):
             raise TapeMismatch("script has %s(%s), code asked for %s(%s) via %s" % (k, r, kind, rng, api))
@@ -153,7 +153,11 @@ class Tape:
         out = []
         for _ in range(k):
             if self.mode == "script":
-                i = self._next("weighted", len(population), "random.choices")
+                w = list(weights) if weights is not None else None
+                if w is None and cum_weights is not None:
+                    cw = list(cum_weights)
+                    w = [cw[0]] + [b - a for a, b in zip(cw, cw[1:])]
+                i = self._next("weighted", len(population), "random.choices", w)
             else:
                 i = self._orig[("py", "choices")](range(len(population)), weights=weights, cum_weights=cum_weights, k=1)[0]
             self._emit("weighted", len(population), int(i), "random.choices")
@@ -199,7 +203,7 @@ class Tape:
             out = []
             for _ in range(n):
                 if self.mode == "script":
-                    i = self._next("weighted", len(pop), "np.random.choice")
+                    i = self._next("weighted", len(pop), "np.random.choice", None if p is None else list(p))
                 else:
                     i = int(self._orig[("np", "choice")](len(pop), p=p))
                 self._emit("weighted", len(pop), int(i), "np.random.choice")
